@@ -42,6 +42,30 @@ pub fn generate(tier: &str, seed: u64) -> Vec<String> {
     let thorough = tier == "thorough";
     let ncfg = if thorough { 2500 } else { 220 };
     let mut out = vec![];
+    // lossy `bitround` (decoding is the identity): partial reads of absent chunks must return the fill value itself,
+    // also when the fill value is not representable at `keepbits`
+    for i in 0..(if thorough { 60 } else { 12 }) {
+        let mut cfg = gen_cfg(&mut rng, Some(true));
+        let mut tries = 0;
+        while (cfg.dtype.name != "float32" || cfg.shape.is_empty() || cfg.sharded) && tries < 2000 { cfg = gen_cfg(&mut rng, Some(true)); tries += 1; }
+        if cfg.dtype.name != "float32" { continue; }
+        cfg.fill = ("0.1".to_string(), 0.1f32.to_le_bytes().to_vec());
+        let keep = 1 + (i % 5);
+        cfg.codecs_json = format!("[{{\"name\":\"bitround\",\"configuration\":{{\"keepbits\":{}}}}},{{\"name\":\"bytes\",\"configuration\":{{\"endian\":\"little\"}}}}]", keep);
+        cfg.chain_desc = "bitround|bytes-little".into();
+        out.push(cfg.cfg_line("c02", "memory", false, false, ""));
+        let gs = cfg.grid_shape();
+        for _ in 0..4 {
+            let c: Vec<u64> = gs.iter().map(|&g| rng.below(g.max(1))).collect();
+            let cshape = cfg.chunk_origin_shape(&c).1;
+            let mut st = vec![]; let mut n = vec![];
+            for &e in &cshape { let a = rng.below(e); st.push(a); n.push(rng.range(1, e - a)); }
+            out.push(format!("c02 op retrieve_chunk c={}", nl(&c)));
+            out.push(format!("c02 op retrieve_chunk_subset c={} r={}+{}", nl(&c), nl(&st), nl(&n)));
+            out.push(format!("c02 op pdx c={} rs={}+{}", nl(&c), nl(&st), nl(&n)));
+        }
+        out.push(format!("c02 {}", gen_read_op(&mut rng, &cfg)));
+    }
     let mut k = 0;
     while k < ncfg {
         let cfg = gen_cfg(&mut rng, if k % 2 == 0 { Some(true) } else { None });
